@@ -137,9 +137,9 @@ func (teb *typedExprBuilder) InputSlice(typeName string) (typeinfo.Input, error)
 
 // Kind looks up the type name and returns its kind.
 func (teb *typedExprBuilder) Kind(typeName string) (reflect.Kind, error) {
-	arg, ok := teb.argInfos[typeName]
-	if !ok {
-		return 0, teb.nameNotFoundError(typeName)
+	arg, err := teb.getArg(typeName)
+	if err != nil {
+		return 0, err
 	}
 	return arg.Typ().Kind(), nil
 }
